@@ -128,8 +128,15 @@ def pattern_ok(p):
     return not any(fnmatch.fnmatchcase(c, payload) for c in core.STATIC_ANCESTORS)
 
 
-def draw_patterns(draw, site, max_patterns=4, allow_abs=True, allow_root=False):
-    """Patterns drawn from the tree's own names so that they hit."""
+def hits_ancestor(p, site):
+    """Would this (non-absolute) pattern match a path component above the input directory?"""
+    kind, _d, payload = refs._split_pattern(p.replace("{BASE}", "/B"))
+    return kind == "name" and any(fnmatch.fnmatchcase(c, payload) for c in site.loc)
+
+
+def draw_patterns(draw, site, max_patterns=4, allow_abs=True, allow_root=False, allow_ancestor_hits=False):
+    """Patterns drawn from the tree's own names so that they hit.  Unless asked for, no pattern matches a
+    component of the generated location above the input (that is finding F5, C15's business)."""
     entries = sorted(site.tree)
     if not entries:
         return []
@@ -167,7 +174,7 @@ def draw_patterns(draw, site, max_patterns=4, allow_abs=True, allow_root=False):
             ext = name[name.rfind("."):] if "." in name else ""
             p = "{BASE}/" + posixpath.join(site.proj, d, "*" + ext if ext else name[:1] + "*")
             p = posixpath.normpath(p)
-        if p not in pats and pattern_ok(p):
+        if p not in pats and pattern_ok(p) and (allow_ancestor_hits or not hits_ancestor(p, site)):
             pats.append(p)
     if allow_root and draw(st.integers(0, 9)) == 0:
         pats.append(draw(st.sampled_from([site.proj_name, site.proj_name + "/", "{BASE}/" + site.proj])))
